@@ -31,11 +31,13 @@ class PdoOnMessage(Contract):
     reader is woken; otherwise nothing changes"""
     target = "canopen.pdo.base:PdoMap.on_message"
     props = ("C15",)
-    cases = {"idle-first": (False, False), "idle-later": (False, True), "transmitting": (True, True)}
+    cases = {"idle-first": (False, False), "idle-later": (False, True), "transmitting": (True, True),
+             "idle-same-timestamp": (False, "same")}
 
     def setup(self, w, case):
         transmitting, had_ts = case
-        pm = mk_map(w, timestamp=(10.0 if had_ts else None), period=(0.25 if had_ts else None))
+        # ("same": the previous frame carried the very same timestamp, e.g. a coarse clock; the frame is still a new one)
+        pm = mk_map(w, timestamp=((12.5 if had_ts == "same" else 10.0) if had_ts else None), period=(0.25 if had_ts else None))
         # a mapping of 20 bits (frame length ceil(20/8) = 3): the last byte is only partly used
         od = w.obj(OD, data_type=0x06, name="Var", index=0x2000, subindex=0, parent=None)
         w.setfield(pm, "map", w.list([w.obj("canopen.pdo.base:PdoVariable", od=od, pdo_parent=pm, offset=0, length=20,
@@ -61,11 +63,11 @@ class PdoOnMessage(Contract):
         if bool(mine):
             exp_ev = [("notify_all",)] + S.expected_calls(p["cbs0"], (pm,))
             return And(s.returned, S.is_bytes(g(pm, "data"), 3), S.eq(g(pm, "data"), p["frame"]), g(pm, "timestamp") == 12.5,
-                       (g(pm, "period") == 2.5) if p["had_ts"] else (g(pm, "period") is None),
+                       (g(pm, "period") == (0.0 if p["had_ts"] == "same" else 2.5)) if p["had_ts"] else (g(pm, "period") is None),
                        truth_val(g(pm, "is_received")), S.events_are(s, exp_ev),
                        S.same_list(g(pm, "callbacks"), p["cbs0"]))
         return And(s.returned, g(pm, "data") is p["data"], S.eq(g(pm, "data"), p["data0"]), len(s.ev) == 0,
-                   (g(pm, "timestamp") == 10.0) if p["had_ts"] else (g(pm, "timestamp") is None),
+                   (g(pm, "timestamp") == (12.5 if p["had_ts"] == "same" else 10.0)) if p["had_ts"] else (g(pm, "timestamp") is None),
                    Not(g(pm, "is_received")))
 
     ensures = {"updates-iff-own-cob-and-not-transmitting": lambda s: PdoOnMessage.ok(s)}
